@@ -7,7 +7,7 @@
    Both are universally quantified in every theorem.  `step sv keys true` is the
    model of the repaired code, `step sv keys false` of the code as found.       *)
 From Coq Require Import List ZArith NArith Bool String Lia.
-From Verif Require Import gen.Params model.Proxy corr.Run_C18 proofs.Proxy_proofs.
+From Verif Require Import gen.Params model.Proxy corr.Run_C18 proofs.Proxy_proofs proofs.Proxy_refs.
 Import ListNotations.
 Open Scope N_scope.
 
@@ -272,6 +272,80 @@ Theorem C18_remote_create_is_create : forall sv keys rc st c,
   step sv keys rc st (OCmd c CCreateSubRemote) = step sv keys rc st (OCmd c CCreateSub).
 Proof. reflexivity. Qed.
 
+(* ---- the reference counts of the remote publishers over histories (proofs/Proxy_refs.v) ----
+   The ghost (grun_pair / gstep) rides beside `run` without changing it: g_remote, the
+   creation requests that were remote (OCmd c CCreateSubRemote that reached the media
+   server); g_refs id, the count of the remote publisher of request id.  At the step in
+   which request id stops being in flight the continuation of the handler ran:
+   handler_refops ra (oc id), followed by sub_close_refops (oc id) when its subscriber is
+   not open afterwards (closed at once); at a step in which its open subscriber stops
+   being open (delete-subscriber, end of the session, loss of the media server):
+   sub_close_refops RROk.
+   oc : N -> rres is the explicit argument that splits the completion alphabet: the outcome
+   of NewRemotePublisher / NewRemoteSubscriber for request tok; `consistent oc ops`: every
+   completion in ops (OMcuDone tok r, every slot of OByeIn / OExpireIn) has r = rres_mres (oc tok). *)
+Theorem C18_remote_refs_state : forall sv keys oc ra ops,
+  fst (grun_pair sv keys oc ra ops) = run sv keys ops.
+Proof. exact grun_state. Qed.
+
+(* for EVERY history: the table holds one reference for id exactly when id was created by a
+   remote request and its subscriber is open at the media server, none otherwise ... *)
+Theorem C18_remote_refs_exact : forall sv keys oc ops, consistent oc ops ->
+  forall id, rrefs_of sv keys oc true ops id =
+             if memN id (remote_of sv keys oc true ops) && sub_open (run sv keys ops) id then Some 1 else None.
+Proof. exact remote_refs_exact. Qed.
+
+(* ... as lists: the table has the entries of [(id, 1) | (id, Sub, _) in mopen, id remote] ... *)
+Theorem C18_remote_refs_table : forall sv keys oc ops, consistent oc ops ->
+  forall x, In x (rtable sv keys oc ops) <-> In x (open_remote_subs sv keys oc ops).
+Proof. exact remote_table_exact. Qed.
+
+(* ... and the one reference is held by an open subscriber in the table of the session that
+   created it, which exists *)
+Theorem C18_remote_refs_owned : forall sv keys oc ops, consistent oc ops ->
+  forall id n, rrefs_of sv keys oc true ops id = Some n ->
+  n = 1 /\ In id (remote_of sv keys oc true ops) /\
+  exists sid s, In (id, Sub, sid) (mopen (run sv keys ops)) /\
+                In s (sessions (run sv keys ops)) /\ ss_sid s = sid /\ memN id (ss_subs s) = true.
+Proof. exact remote_refs_owned. Qed.
+
+(* once a session has ended nothing is referenced for it, in every history (so: whatever was
+   in flight when it ended, and whenever and however that completes); no session, no reference *)
+Theorem C18_remote_refs_gone_with_session : forall sv keys oc ops, consistent oc ops ->
+  (forall sid, ~ live (run sv keys ops) sid ->
+   forall id, rrefs_of sv keys oc true ops id = None \/
+              exists sid', sid' <> sid /\ live (run sv keys ops) sid' /\
+                           In (id, Sub, sid') (mopen (run sv keys ops)) /\
+                           rrefs_of sv keys oc true ops id = Some 1) /\
+  (sessions (run sv keys ops) = [] -> forall id, rrefs_of sv keys oc true ops id = None).
+Proof.
+  intros sv keys oc ops Hc. split;
+    [apply remote_refs_gone_with_session | apply remote_refs_none_without_sessions]; exact Hc.
+Qed.
+
+(* the seeded placement of the release (only after a successful attach), as a history:
+   hello, remote create-subscriber, attach fails, bye - no session, nothing open in the
+   state, one reference left on the remote publisher of request 0; none with the code's placement.
+   Full statement that fails for ra = false: C18_remote_refs_exact with `false` for `true`. *)
+Theorem C18_remote_refs_release_late_refuted : exists oc ops,
+  consistent oc ops /\
+  sessions (run sv_all keys_all ops) = [] /\ mopen (run sv_all keys_all ops) = [] /\
+  remote_of sv_all keys_all oc false ops = [0] /\
+  rrefs_of sv_all keys_all oc false ops 0 = Some 1 /\
+  rrefs_of sv_all keys_all oc true ops 0 = None.
+Proof. exists late_oc, late_ops. exact remote_refs_release_late_history. Qed.
+
+(* non-vacuity: a consistent history with three remote requests (kept / attach failed /
+   deleted) and a local subscriber; the computed table; then the bye of the holder *)
+Example C18_remote_refs_nonvacuous :
+  consistent refs_oc (refs_ops ++ [OBye 0]) /\
+  map (rrefs_of sv_all keys_all refs_oc true refs_ops) [0; 1; 2; 3] = [Some 1; None; None; None] /\
+  rtable sv_all keys_all refs_oc refs_ops = [(0, 1)] /\
+  open_remote_subs sv_all keys_all refs_oc refs_ops = [(0, 1)] /\
+  mopen (run sv_all keys_all refs_ops) = [(0, Sub, 1); (3, Sub, 2)] /\
+  rtable sv_all keys_all refs_oc (refs_ops ++ [OBye 0]) = [].
+Proof. exact remote_refs_example. Qed.
+
 Print Assumptions C18_params.
 Print Assumptions C18_hello_sound.
 Print Assumptions C18_token_complete.
@@ -293,3 +367,9 @@ Print Assumptions C18_create_after_close_repaired.
 Print Assumptions C18_remote_publisher_refs.
 Print Assumptions C18_remote_release_late_refuted.
 Print Assumptions C18_remote_create_is_create.
+Print Assumptions C18_remote_refs_state.
+Print Assumptions C18_remote_refs_exact.
+Print Assumptions C18_remote_refs_table.
+Print Assumptions C18_remote_refs_owned.
+Print Assumptions C18_remote_refs_gone_with_session.
+Print Assumptions C18_remote_refs_release_late_refuted.
